@@ -26,6 +26,9 @@ type FileQueue struct {
 	IndexRW sync.RWMutex
 	Index   map[string]*item
 
+	// PutLock serializes the users of tmp.data and Offset. The background writer calls Put too (see BeansDB.afterBlock), while the foreground is writing or is scanning the file at startup
+	PutLock sync.Mutex
+
 	LevelDB *leveldb.LevelDBDatabase
 
 	SyncFileDB *SyncFileDB
@@ -58,7 +61,9 @@ func (queue *FileQueue) Start() {
 	queue.start()
 	queue.SyncFileDB.Open()
 
+	queue.PutLock.Lock()
 	err := queue.checkFile()
+	queue.PutLock.Unlock()
 	if err != nil {
 		panic("start queue.check tmp file err: " + err.Error())
 	}
@@ -273,6 +278,9 @@ func (queue *FileQueue) Put(flag uint32, key []byte, val []byte) error {
 		return err
 	}
 
+	queue.PutLock.Lock()
+	defer queue.PutLock.Unlock()
+
 	path := queue.path()
 
 	// TODO del tmp file.
@@ -293,6 +301,9 @@ func (queue *FileQueue) PutBatch(items []*BatchItem) error {
 	if err != nil {
 		return err
 	}
+
+	queue.PutLock.Lock()
+	defer queue.PutLock.Unlock()
 
 	path := queue.path()
 	totalBuf := queue.mergeBatchItems(tmpBuf)
